@@ -523,9 +523,9 @@ Section WithEnv.
       let (o4, c4) := push_from_cache o3 c3 in
       match r_oti o4 with
       | None =>
-        (* cache(): the size counter is compared, never increased *)
+        (* cache(): refused once the counter has reached the limit, else counted and kept *)
         if r_max o4 <=? r_cache_size o4 then error o4 false c4
-        else (mk_or (r_state o4) (r_toi o4) (r_oti o4) (r_cache o4 ++ [p]) (r_cache_size o4) (r_max o4) (r_blocks o4)
+        else (mk_or (r_state o4) (r_toi o4) (r_oti o4) (r_cache o4 ++ [p]) (r_cache_size o4 + a_datalen p) (r_max o4) (r_blocks o4)
                     (r_off o4) (r_tlen o4) (r_cenc o4) (r_md5 o4) (r_md5chk o4) (r_al o4) (r_as o4) (r_nal o4)
                     (r_writer o4) (r_bw o4) (r_fdt_id o4) (r_nb_alloc o4) (r_alloc_size o4) (r_clen o4) (r_nocache o4), c4)
       | Some _ =>
